@@ -117,6 +117,7 @@ Clause(s, e) ==
     [] e.a = "end" ->
          LET o == s.op[e.p]  f == FamOfU(o.u) IN
          IF On("P:DeleteRefused") /\ (o.kind = "del" /\ o.refuse /\ e.ok) THEN "P:DeleteRefused"
+         ELSE IF On("P:CommandSucceeds") /\ (~e.ok /\ ~e.fault /\ ~(o.kind = "del" /\ o.refuse)) THEN "P:CommandSucceeds"
          ELSE IF On("P:DeleteAccepted") /\ (o.kind = "del" /\ ~o.refuse /\ ~e.ok /\ ~e.fault) THEN "P:DeleteAccepted"
          ELSE IF On("P:CleanExact") /\ (o.kind = "clean" /\ e.ok /\ ~CleanExactOf(n.chunks, n.snaps, Body, f)) THEN "P:CleanExact"
          ELSE IF On("P:DeleteComplete") /\ (o.kind = "del" /\ e.ok /\ ~o.refuse /\ ~DeleteCompleteOf(n.chunks, n.snaps, Body, f, o.D)) THEN "P:DeleteComplete"
